@@ -47,6 +47,7 @@ type Bus struct {
 	pending   int64
 	closed    chan struct{}
 	serial    wire.EnvelopeSerializer // optional: every envelope goes through this serializer
+	sendFault func(*wire.Envelope) error
 	drop      func(*wire.Envelope) bool
 	wg        sync.WaitGroup
 	delivered int64
@@ -65,6 +66,10 @@ func (b *Bus) SetSerializer(ser wire.EnvelopeSerializer) { b.serial = ser }
 
 // SetDrop installs a filter; envelopes for which it returns true are discarded at publication.
 func (b *Bus) SetDrop(f func(*wire.Envelope) bool) { b.mu.Lock(); b.drop = f; b.mu.Unlock() }
+
+// SetSendFault installs a function that makes Publish fail for the selected envelopes (a peer
+// that closed its connection): nothing is delivered and the sender gets the error.
+func (b *Bus) SetSendFault(f func(*wire.Envelope) error) { b.mu.Lock(); b.sendFault = f; b.mu.Unlock() }
 
 // AddTap registers an observer of delivered envelopes.
 func (b *Bus) AddTap(t Tap) { b.mu.Lock(); b.taps = append(b.taps, t); b.mu.Unlock() }
@@ -132,7 +137,13 @@ func (b *Bus) Publish(ctx context.Context, e *wire.Envelope) error {
 	b.mu.Lock()
 	rw := b.rewriters[wire.Keys(e.Sender)]
 	drop := b.drop
+	fault := b.sendFault
 	b.mu.Unlock()
+	if fault != nil {
+		if err := fault(e); err != nil {
+			return err // the recipient is unreachable: nothing is delivered and the sender is told
+		}
+	}
 	if drop != nil && drop(e) {
 		return nil
 	}
